@@ -87,7 +87,7 @@ OpStep(s) ==
 Step(s) ==
     IF s.tce.active THEN CommitStep(s)
     ELSE IF s.pre = "discouraged" THEN FailS(s, "DISCOURAGE_OP_SUCCESS")
-    ELSE IF s.pre = "success" THEN [s EXCEPT !.done = TRUE, !.vm.status = "ok", !.vm.err = "OK"]
+    ELSE IF s.pre = "success" THEN [s EXCEPT !.done = TRUE, !.vm.status = "ok", !.vm.err = "OK", !.seq = s.seq + 1]
     ELSE IF s.vm.pc < Len(s.ctx.script) THEN OpStep(s)
     ELSE EndOfScript(s)
 
